@@ -8,12 +8,32 @@ import (
 )
 
 // Vocabulary: small and colliding on purpose (DESIGN §3).
-var nsNames = []string{"default", "ns1", "ns2", "ns3"}
+var nsNames = []string{"default", "ns1", "ns2", "ns3", "ns4", "ns5", "ns6", "ns7", "ns8"}
 
 // workload names: DNS-1123 subdomains - dots are legal, and so are more than 63 characters (the last one has 64)
 var wlNames = []string{"a", "b", "c", "web", "db", "a", "b", "web", "web.v1", "l" + strings.Repeat("o", 61) + "ng"}
 var labelKeys = []string{"app", "tier", "env", "a", "b", "ab"}
 var labelVals = []string{"x1", "x2", "web", "db", "c", "", "Web"} // the empty string is a valid label value; labels are case-sensitive
+
+// rarer spellings, mixed in by genLabels/genSelector in a tenth of the draws: a key with a DNS prefix and a slash, values
+// that look like YAML scalars of another type, a value of the maximal length (63)
+var rareLabelKeys = []string{"app.kubernetes.io/name", "example.com/tier"}
+var rareLabelVals = []string{"true", "1", "null", "v" + strings.Repeat("x", 61) + "z"}
+
+func drawLabelKey(t *rapid.T, l string, keys []string) string {
+	if rapid.IntRange(0, 9).Draw(t, l+"rarek") == 0 {
+		return rapid.SampledFrom(rareLabelKeys).Draw(t, l+"rk")
+	}
+	return rapid.SampledFrom(keys).Draw(t, l)
+}
+
+func drawLabelVal(t *rapid.T, l string, vals []string) string {
+	if rapid.IntRange(0, 9).Draw(t, l+"rarev") == 0 {
+		return rapid.SampledFrom(rareLabelVals).Draw(t, l+"rv")
+	}
+	return rapid.SampledFrom(vals).Draw(t, l)
+}
+
 var portNames = []string{"http", "dns", "metrics"}
 var protos = []string{"TCP", "UDP", "SCTP"}
 var portPool = []int{80, 1, 2, 53, 79, 81, 443, 8080, 8081, 65534, 65535}
@@ -59,7 +79,7 @@ func genLabels(t *rapid.T, label string, max int) map[string]string {
 	n := rapid.IntRange(0, max).Draw(t, label+"n")
 	m := map[string]string{}
 	for i := 0; i < n; i++ {
-		m[rapid.SampledFrom(labelKeys).Draw(t, label+"k")] = rapid.SampledFrom(labelVals).Draw(t, label+"v")
+		m[drawLabelKey(t, label+"k", labelKeys)] = drawLabelVal(t, label+"v", labelVals)
 	}
 	return m
 }
@@ -109,26 +129,32 @@ func genSelector(t *rapid.T, label string, nsSel bool, cfg *GenCfg) *Selector {
 	}
 	drawVal := func(k, l string) string {
 		if k == nsNameKey {
-			return rapid.SampledFrom(append([]string{"nsX"}, nsNames...)).Draw(t, l+"nsv")
+			return rapid.SampledFrom(append([]string{"nsX"}, nsNames[:5]...)).Draw(t, l+"nsv")
 		}
-		return rapid.SampledFrom(vals).Draw(t, l)
+		return drawLabelVal(t, l, vals)
 	}
 	if rapid.IntRange(0, 2).Draw(t, label+"ml") > 0 {
 		s.MatchLabels = map[string]string{}
 		n := rapid.IntRange(0, 2).Draw(t, label+"mln")
 		for i := 0; i < n; i++ {
-			k := rapid.SampledFrom(keys).Draw(t, label+"mk")
+			k := drawLabelKey(t, label+"mk", keys)
 			s.MatchLabels[k] = drawVal(k, label+"mv")
 		}
 	}
 	ne := 0
 	if rapid.IntRange(0, 2).Draw(t, label+"useexpr") == 0 {
 		ne = rapid.IntRange(1, 2).Draw(t, label+"ne")
+		if rapid.IntRange(0, 7).Draw(t, label+"manyexpr") == 0 {
+			ne = rapid.IntRange(3, 4).Draw(t, label+"ne2") // several requirements, often on the same key
+		}
 	}
 	for i := 0; i < ne; i++ {
-		e := Expr{Key: rapid.SampledFrom(keys).Draw(t, label+"ek"), Op: rapid.SampledFrom([]string{"In", "NotIn", "Exists", "DoesNotExist"}).Draw(t, label+"op")}
+		e := Expr{Key: drawLabelKey(t, label+"ek", keys), Op: rapid.SampledFrom([]string{"In", "NotIn", "Exists", "DoesNotExist"}).Draw(t, label+"op")}
 		if e.Op == "In" || e.Op == "NotIn" {
 			nv := rapid.IntRange(1, 2).Draw(t, label+"nv")
+			if rapid.IntRange(0, 7).Draw(t, label+"manyvals") == 0 {
+				nv = rapid.IntRange(3, 6).Draw(t, label+"nv2")
+			}
 			for j := 0; j < nv; j++ {
 				e.Values = append(e.Values, drawVal(e.Key, label+"ev"))
 			}
@@ -360,6 +386,13 @@ func GenWorld(t *rapid.T, cfg GenCfg) *World {
 	}
 	w := &World{}
 	nns := rapid.IntRange(1, 3).Draw(t, "nns")
+	if rapid.IntRange(0, 29).Draw(t, "bigworld") == 0 {
+		// a big world now and then: thresholds of the code (slice growth, sorting, cache sizes) are only crossed there
+		nns = rapid.IntRange(4, 7).Draw(t, "nnsbig")
+		cfg.MaxWl += 12
+		cfg.MaxNP += 10
+		cfg.MaxANP += 4
+	}
 	first := 1
 	if cfg.OmitNs {
 		first = 0 // include "default"
